@@ -42,6 +42,11 @@ func workloads() map[string]families.Workload {
 				wlCache[w.Name] = w
 			}
 		}
+		// page headers that shrink and grow inside a column chunk (required
+		// columns only: RequiredField.DoRead is the page loop without levels)
+		for _, w := range families.HeaderVaryWorkloads(families.Codecs3()) {
+			wlCache[w.Name] = w
+		}
 	}
 	return wlCache
 }
